@@ -47,7 +47,7 @@ def run_unit(unit, tier="quick", prefix=(), split=0):
             if first and res.kind in ("ret", "end"):
                 # canary: `false` under the first path's condition must be refutable, i.e. the path condition
                 # (hence the unit's `requires`) is satisfiable and the solver is really being asked
-                v, _, _, _ = check_sat(list(c.pc), 5000, use_cvc5=False)
+                v, _, _, _ = check_sat(list(c.hyps), 5000, use_cvc5=False)
                 out["canary"] = {"sat": "ok", "unknown": "unknown", "unsat": "VACUOUS"}[v]
                 first = False
             SYMCACHE.clear()
@@ -58,7 +58,7 @@ def run_unit(unit, tier="quick", prefix=(), split=0):
                        "model": ob.model, "path": "".join("T" if d else "F" for d in (ob.path or [])),
                        "props": list(ob.info.get("props", unit.props)), "kind": ob.info.get("kind", "contract"),
                        "note": ob.info.get("note"), "fmodel": ob.info.get("fmodel", unit.fmodel)}
-                if ob.verdict == "sat" and ob.zmodel is not None and unit.replay:
+                if ob.verdict in ("sat", "candidate") and ob.zmodel is not None and unit.replay:
                     try:
                         rec["replay_inputs"] = concretize(c.named, ob.zmodel)
                         rec["replay_inputs"]["vcx_obligation"] = ob.name
@@ -201,6 +201,10 @@ def call_expecting(c, name, fn, allowed=(), props=None):
     except allowed as e:
         return "exc", e
     except Exception as e:
+        # an exception raised *inside* the engine's own code is an engine bug, not a behaviour of cobyqa
+        frames = traceback.extract_tb(e.__traceback__)
+        if frames and "/pyvc/" in frames[-1].filename and not isinstance(e, (KeyError, IndexError, ZeroDivisionError)):
+            raise Unsupported(f"engine bug: {type(e).__name__}: {e} at {frames[-1].filename}:{frames[-1].lineno}")
         tb = traceback.format_exc(limit=6)
         info = {"note": f"{type(e).__name__}: {e} | {tb[-600:]}"}
         if props:
